@@ -51,7 +51,7 @@ func (t *zzTransport) FinalAdvertiseAddr(ip string, port int) (net.IP, int, erro
 	return net.ParseIP("127.0.0.1"), 7946, nil
 }
 func (t *zzTransport) WriteTo(b []byte, addr string) (time.Time, error) { return time.Now(), nil }
-func (t *zzTransport) PacketCh() <-chan *memberlist.Packet                { return t.pch }
+func (t *zzTransport) PacketCh() <-chan *memberlist.Packet              { return t.pch }
 func (t *zzTransport) DialTimeout(addr string, d time.Duration) (net.Conn, error) {
 	t.dials = append(t.dials, addr)
 	return nil, errors.New("recorded")
@@ -127,7 +127,12 @@ func zzEncode(e *codec.Encoder, v interface{}) error {
 		out = append(out, s.Signature...)
 		if s.Snapshot != nil {
 			out = append(out, byte(s.Snapshot.Version))
+			out = append(out, byte(len(s.Snapshot.EventDigest)))
 			out = append(out, s.Snapshot.EventDigest...)
+			out = append(out, byte(len(s.Snapshot.HistoryDigest)))
+			out = append(out, s.Snapshot.HistoryDigest...)
+			out = append(out, byte(len(s.Snapshot.HyperDigest)))
+			out = append(out, s.Snapshot.HyperDigest...)
 		}
 	}
 	_, err := zzEncW.Write(out)
@@ -279,7 +284,8 @@ func zzJSONUnmarshal(data []byte, v interface{}) error {
 	b.Snapshots = nil
 	for _, s := range src.Snapshots {
 		b.Snapshots = append(b.Snapshots, &protocol.SignedSnapshot{
-			Snapshot:  &protocol.Snapshot{Version: s.Snapshot.Version, EventDigest: append([]byte{}, s.Snapshot.EventDigest...)},
+			Snapshot: &protocol.Snapshot{Version: s.Snapshot.Version, EventDigest: append([]byte{}, s.Snapshot.EventDigest...),
+				HistoryDigest: append([]byte{}, s.Snapshot.HistoryDigest...), HyperDigest: append([]byte{}, s.Snapshot.HyperDigest...)},
 			Signature: append([]byte{}, s.Signature...),
 		})
 	}
@@ -290,10 +296,10 @@ func zzWithValue(parent context.Context, key, val interface{}) context.Context {
 
 type zzTasks struct{ added int }
 
-func (t *zzTasks) Start()             {}
-func (t *zzTasks) Stop()              {}
+func (t *zzTasks) Start()              {}
+func (t *zzTasks) Stop()               {}
 func (t *zzTasks) Add(task Task) error { t.added++; return nil }
-func (t *zzTasks) Len() int           { return t.added }
+func (t *zzTasks) Len() int            { return t.added }
 
 type zzFactory struct{ news int }
 
@@ -312,13 +318,26 @@ func ZZC18Loop() {
 	a := &Agent{Self: &Peer{Name: "self"}, Cache: cache, Tasks: tasks, log: log.L()}
 	a.Out.log = log.L()
 	d := NewBatchProcessor(a, []TaskFactory{fac}, log.L())
-	nb := 1 + rt.Choose("batches", 2)
+	nb := 1 + rt.Choose("batches", rt.Param("BATCHES", 3))
 	zzBatches = nil
 	for i := 0; i < nb; i++ {
-		zzBatches = append(zzBatches, &protocol.BatchSnapshots{Snapshots: []*protocol.SignedSnapshot{{
-			Snapshot:  &protocol.Snapshot{Version: uint64(i), EventDigest: []byte{byte(i), 7}},
-			Signature: []byte{byte(i + 1)},
-		}}})
+		sn := &protocol.Snapshot{Version: uint64(i), EventDigest: []byte{byte(i), 7}, HistoryDigest: []byte{byte(i), 8}, HyperDigest: []byte{byte(i), 9}}
+		sig := []byte{byte(i + 1)}
+		if i == 2 {
+			// the third batch is the first one with one digest altered — same version, same signature:
+			// a different batch, whose tasks must run (that is how an altered snapshot gets noticed)
+			sn.Version, sig = 0, []byte{1}
+			sn.EventDigest, sn.HistoryDigest, sn.HyperDigest = []byte{0, 7}, []byte{0, 8}, []byte{0, 9}
+			switch rt.Choose("altered-digest", 3) {
+			case 0:
+				sn.EventDigest = []byte{0xee, 7}
+			case 1:
+				sn.HistoryDigest = []byte{0xee, 8}
+			case 2:
+				sn.HyperDigest = []byte{0xee, 9}
+			}
+		}
+		zzBatches = append(zzBatches, &protocol.BatchSnapshots{Snapshots: []*protocol.SignedSnapshot{{Snapshot: sn, Signature: sig}}})
 	}
 	deliveries := 1 + rt.Choose("deliveries", rt.Param("DELIV", 4))
 	ch := make(chan *Message, 16)
@@ -330,7 +349,7 @@ func ZZC18Loop() {
 			panic(err)
 		}
 		// the same batch reaches the agent over paths of different length and from different peers
-		ch <- &Message{Kind: BatchMessageType, TTL: 1 + rt.Choose(fmt.Sprintf("ttl%d", k), 3), From: &Peer{Name: zzNames[1+rt.Choose(fmt.Sprintf("from%d", k), 3)]}, Payload: payload}
+		ch <- &Message{Kind: BatchMessageType, TTL: 1 + rt.Choose(fmt.Sprintf("ttl%d", k), rt.Param("TTLS", 2)), From: &Peer{Name: zzNames[1+rt.Choose(fmt.Sprintf("from%d", k), rt.Param("FROMS", 2))]}, Payload: payload}
 		distinct[i] = true
 	}
 	check := func() {
